@@ -10,18 +10,24 @@ from .. import tu, gen
 
 PROPERTY = "C14"
 RULE = ("lqr: Hypothesis draws LTI (batch 1..3) and LTV (subclass with time-indexed A_t, B_t, c1_t, as the test-suite does) systems, state / "
-        "input dims 1..6, horizon 1..20 (quick <= 10), spectral radius <= 1.5, positive-definite Q_t = U diag(lambda) U^T with condition up "
+        "input dims 1..6, horizon 1..20 (quick: 11..20 one case in 8), spectral radius <= 1.5, positive-definite Q_t = U diag(lambda) U^T with condition up "
         "to 1e6 (x-u cross terms, time varying or constant), arbitrary p_t, c1, x_init, nominal u_traj None / random, and a HISTORY on ONE "
-        "system object: solves with new data interleaved with system(x,u) calls, systime assignment and reset(), so the time counter is "
-        "arbitrary before a solve.  Oracle (float64 numpy, independent): condensing x = Phi x0 + Gamma U + gamma turns the cost into "
+        "system object: solves with new data (new LQR object, full horizon or a shorter one) and repeated calls of the SAME LQR object "
+        "with a new x_init / u_traj (its Q, p, T are constructor data), interleaved with system(x,u) calls, systime assignment and "
+        "reset(), so the time counter is arbitrary before a solve.  Oracle (float64 numpy, independent): condensing x = Phi x0 + Gamma U + gamma turns the cost into "
         "1/2 U^T H U + h^T U + c; asserted: x[0] == x_init; x[t+1] = A_t x[t] + B_t u[t] + c1_t with the harness's own matrices indexed "
-        "by horizon time; reported cost == sum 1/2 tau^T Q tau + p^T tau; |H U + h| small and U == -H^-1 h (tolerance scaled by cond(H)); "
-        "no random perturbation lowers the cost; the result does not depend on u_traj or on what happened to the system object before.  "
-        "mpc_linear: MPC on the same linear problems (single batch) returns the same optimum.  mpc_nonlinear: random smooth "
-        "time-invariant NLS: returned x satisfies the nonlinear dynamics and the returned cost equals the sum along (x,u).  "
+        "by horizon time; reported cost == sum 1/2 tau^T Q tau + p^T tau along the RETURNED (x,u) within 16 (2 nsc + T + 4) eps sum|terms| "
+        "(forward error of any float64 evaluation of that sum); |H U + h| small and U == -H^-1 h (tolerance scaled by cond(H)); "
+        "no random perturbation lowers the cost; the result does not depend on u_traj or on what happened to the system object / the LQR object before.  "
+        "mpc_linear: MPC on the same linear problems (single batch; dims 1..6, horizons 1..20 - quick: 9..20 one case in 8 -, cond(Q) up to 1e6, "
+        "stepper budget 1..7 including the single-pass budget 1, the same MPC object called twice) returns the same optimum.  mpc_nonlinear: random smooth "
+        "time-invariant NLS x' = W1 x + a sin(W2 x) + B u (a = 0, the linear member, one case in 8), dims 1..6, horizons 1..20 (quick: 7..20 one case in 8), "
+        "Q_t constant or time varying with condition 1e2..1e6, budget 1..6: returned x satisfies the nonlinear dynamics and the returned cost equals the sum along (x,u).  "
         "Non-trivial: T >= 3 with time-varying data or cross terms; history with >= 2 solves on one object; non-zero c1; random u_traj.")
 ASSUMPTIONS = ["Q_t positive definite (cond <= 1e6); no control bounds (u_lower/u_upper/du None)", "dt = 1 (time index = step index)",
-               "MPC nonlinear clause uses time-invariant dynamics (the statement does not fix the clock inside the horizon)"]
+               "MPC nonlinear clause uses time-invariant dynamics (the statement does not fix the clock inside the horizon)",
+               "an existing LQR object can only be re-called with another x_init / u_traj (horizon and cost are fixed at construction): other horizons "
+               "on the same SYSTEM object are reached with a new LQR object"]
 
 
 class MyLTV(pp.module.LTV):
@@ -140,9 +146,17 @@ def check_solution(rec, tag, pr, T, ltv, Q, p, x0, x, u, cost, nb):
         ed = float(np.abs(x[b] - xs).max())
         rec.notes[tag + ":dyn"] = max(rec.notes.get(tag + ":dyn", 0), ed / (1e-9 * scale))
         ok &= rec.check(ed <= 1e-9 * scale, tag + ":dynamics", lambda: "returned states violate x[t+1] = A_t x[t] + B_t u[t] + c1_t by %.3g (scale %.3g)" % (ed, scale))
-        cref = costf(U)
+        # reported cost: "the sum of 1/2 tau^T Q tau + p^T tau along them", i.e. along the RETURNED x, u.  Any float64 evaluation of that
+        # sum (nsc-term matrix-vector and dot products, T terms added up) is within gamma * sum|terms| of the exact value, so two
+        # evaluations differ by at most 2 (2 nsc + T + 4) eps cabs; allowed: 8x that.  (No dependence on how unstable A is - the
+        # states enter only through the terms themselves.)
+        tau = np.concatenate([x[b][:T], u[b]], axis=1)
+        cref = float(sum(0.5 * tau[t] @ Q[b][t] @ tau[t] + p[b][t] @ tau[t] for t in range(T)))
+        cabs = float(sum(0.5 * np.abs(tau[t]) @ np.abs(Q[b][t]) @ np.abs(tau[t]) + np.abs(p[b][t]) @ np.abs(tau[t]) for t in range(T)))
+        tol_c = 16 * (2 * tau.shape[1] + T + 4) * eps * cabs + 1e-300
         ec = abs(float(cost[b]) - cref)
-        ok &= rec.check(ec <= 1e-9 * max(1.0, abs(cref), float(np.abs(H).max()) * scale ** 2), tag + ":cost", lambda: "reported cost %.17g but the sum along the returned trajectory is %.17g" % (float(cost[b]), cref))
+        rec.notes[tag + ":cost"] = max(rec.notes.get(tag + ":cost", 0), ec / tol_c)
+        ok &= rec.check(ec <= tol_c, tag + ":cost", lambda: "reported cost %.17g but the sum along the returned trajectory is %.17g (tol %.3g)" % (float(cost[b]), cref, tol_c))
         # optimality
         condH = float(np.linalg.cond(H))
         Us = -np.linalg.solve(H, h)
@@ -164,29 +178,45 @@ def check_solution(rec, tag, pr, T, ltv, Q, p, x0, x, u, cost, nb):
     return ok
 
 
+def weighted(*pairs):
+    """choice among strategies with integer weights (one_of would drop repeated alternatives, sampled_from keeps repeats)"""
+    idx = [i for i, (_, w) in enumerate(pairs) for _ in range(w)]
+    return st.sampled_from(idx).flatmap(lambda i: pairs[i][0])
+
+
 class LQRHist(Sub):
+    """ops of a history on ONE system object:  solve = new LQR object (new Q, p, x_init) with the full horizon T;  solveT = new LQR
+    object with a shorter horizon 1 + arg % T (an LTV system with T matrices accepts every horizon <= T);  again = the PREVIOUS LQR
+    object is called once more with a new x_init / u_traj (its Q, p, T are constructor data - the call arguments are all the API lets
+    one change on an existing LQR instance);  call / systime / reset act on the system in between."""
     name = "lqr"
     n = {"quick": 700, "thorough": 30000}
 
     def strategy(self, tier):
-        Tmax = 10 if tier == "quick" else 20
-        op = st.one_of(st.tuples(st.just("solve"), st.integers(0, 10 ** 6), st.booleans()),
+        # horizon: the stated range is 1..20; quick gives 11..20 one case in 8
+        Ts = st.integers(1, 20) if tier != "quick" else weighted((st.integers(1, 10), 7), (st.integers(11, 20), 1))
+        solve = st.tuples(st.just("solve"), st.integers(0, 10 ** 6), st.booleans())
+        op = st.one_of(solve,
                        st.tuples(st.just("call"), st.integers(1, 4), st.booleans()),
                        st.tuples(st.just("systime"), st.integers(0, 30), st.booleans()),
                        st.tuples(st.just("reset"), st.integers(0, 5), st.booleans()),
-                       st.tuples(st.just("solve"), st.integers(0, 10 ** 6), st.booleans()))
+                       st.tuples(st.just("again"), st.integers(0, 10 ** 6), st.booleans()),
+                       st.tuples(st.just("solveT"), st.integers(0, 10 ** 6), st.booleans()))
         return st.fixed_dictionaries({
-            "seed": st.integers(0, 10 ** 7), "nb": st.integers(1, 3), "ns": st.integers(1, 6), "nc": st.integers(1, 6), "T": st.integers(1, Tmax),
+            "seed": st.integers(0, 10 ** 7), "nb": st.integers(1, 3), "ns": st.integers(1, 6), "nc": st.integers(1, 6), "T": Ts,
             "ltv": st.booleans(), "tvq": st.booleans(), "cross": st.booleans(), "condq": st.sampled_from((1.0, 1e2, 1e4, 1e6)), "c1": st.booleans(),
-            "ops": st.lists(op, min_size=0, max_size=6)})
+            "ops": st.lists(op, min_size=0, max_size=6), "last_again": st.booleans()})
 
     def oracle(self, case, rec):
         nb, ns, nc, T, ltv = case["nb"], case["ns"], case["nc"], case["T"], case["ltv"]
         pr = problem(case["seed"], nb, ns, nc, T, ltv, case["tvq"], case["cross"], case["condq"], case["c1"])
         sysm = make_system(pr, ltv)
         ops = [list(o) for o in case["ops"]] + [["solve", case["seed"] % 1000, True]]
-        nsolve = 0
+        if case.get("last_again", False):
+            ops.append(["again", case["seed"] % 977, False])
+        nsolve = nagain = nshort = 0
         Tn = torch.tensor
+        lqr = cur = None            # the live LQR object and the (Q, p, horizon) it was built with
         for kind, arg, flag in ops:
             if kind == "call":
                 with rec.sut("system()"):
@@ -200,20 +230,38 @@ class LQRHist(Sub):
                 sysm.reset(arg % T if ltv else arg)
             else:
                 rs = np.random.RandomState(arg)
-                # new cost data / initial state for this solve (same dynamics object)
-                pr2 = problem(case["seed"] + arg + 1, nb, ns, nc, T, ltv, case["tvq"], case["cross"], case["condq"], case["c1"])
-                Q, p, x0 = pr2["Q"], pr2["p"], pr2["x0"]
-                ut = Tn(rs.randn(nb, T, nc)) if flag else None
-                with rec.sut("LQR"):
-                    lqr = pp.module.LQR(sysm, Tn(Q), Tn(p), T)
-                    x, u, cost = lqr(Tn(x0), u_traj=ut)
+                if kind == "again" and lqr is not None:
+                    # same LQR instance, same cost data, new initial state (and nominal inputs)
+                    Q, p, Th = cur
+                    x0 = rs.randn(nb, ns) * 2
+                    ut = Tn(rs.randn(nb, Th, nc)) if flag else None
+                    with rec.sut("LQR(second call on one instance)"):
+                        x, u, cost = lqr(Tn(x0), u_traj=ut)
+                    nagain += 1
+                    tag = "lqr_again"
+                else:
+                    Th = T if kind != "solveT" else 1 + arg % T
+                    nshort += Th < T
+                    # new cost data / initial state for this solve (same dynamics object)
+                    pr2 = problem(case["seed"] + arg + 1, nb, ns, nc, Th, ltv, case["tvq"], case["cross"], case["condq"], case["c1"])
+                    Q, p, x0 = pr2["Q"], pr2["p"], pr2["x0"]
+                    ut = Tn(rs.randn(nb, Th, nc)) if flag else None
+                    with rec.sut("LQR"):
+                        lqr = pp.module.LQR(sysm, Tn(Q), Tn(p), Th)
+                        x, u, cost = lqr(Tn(x0), u_traj=ut)
+                    cur = (Q, p, Th)
+                    tag = "lqr"
                 nsolve += 1
-                if not check_solution(rec, "lqr", pr, T, ltv, Q, p, x0, x.numpy(), u.numpy(), cost.numpy().reshape(-1), nb):
+                if not check_solution(rec, tag, pr, Th, ltv, Q, p, x0, x.numpy(), u.numpy(), cost.numpy().reshape(-1), nb):
                     rec.notes["failed_at_solve"] = nsolve
                     break
-        rec.label("LTV" if ltv else "LTI", "nb%d" % nb, "solves>=2" if nsolve >= 2 else "solves1")
+        rec.label("LTV" if ltv else "LTI", "nb%d" % nb, "solves>=2" if nsolve >= 2 else "solves1", "T>10" if T > 10 else "T<=10")
+        if nagain:
+            rec.label("same_LQR_instance_reused", "LTV:instance_reused" if ltv else "LTI:instance_reused")
+        if nshort:
+            rec.label("shorter_horizon_on_same_system")
         if (T >= 3 and (case["tvq"] or case["cross"] or ltv)) or nsolve >= 2 or case["c1"]:
-            rec.nt((ltv, nb, ns, nc, min(T, 5), case["tvq"], case["cross"], case["c1"], min(nsolve, 3), tuple(o[0] for o in ops)))
+            rec.nt((ltv, nb, ns, nc, min(T, 5) if T <= 10 else 11, case["tvq"], case["cross"], case["c1"], min(nsolve, 3), tuple(o[0] for o in ops)))
 
     def simplify(self, case):
         ops = case["ops"]
@@ -232,10 +280,12 @@ class MPCLinear(Sub):
     n = {"quick": 250, "thorough": 8000}
 
     def strategy(self, tier):
+        # stated ranges: horizons 1..20, dims 1..6, cond(Q) up to 1e6; quick gives horizons 9..20 one case in 8
+        Ts = st.integers(1, 20) if tier != "quick" else weighted((st.integers(1, 8), 7), (st.integers(9, 20), 1))
         return st.fixed_dictionaries({
-            "seed": st.integers(0, 10 ** 7), "ns": st.integers(1, 5), "nc": st.integers(1, 4), "T": st.integers(1, 8),
-            "ltv": st.booleans(), "tvq": st.booleans(), "cross": st.booleans(), "condq": st.sampled_from((1.0, 1e2, 1e4)), "c1": st.booleans(),
-            "uinit": st.booleans(), "steps": st.integers(1, 6), "twice": st.booleans()})
+            "seed": st.integers(0, 10 ** 7), "ns": st.integers(1, 6), "nc": st.integers(1, 6), "T": Ts,
+            "ltv": st.booleans(), "tvq": st.booleans(), "cross": st.booleans(), "condq": st.sampled_from((1.0, 1e2, 1e4, 1e6)), "c1": st.booleans(),
+            "uinit": st.booleans(), "budget": st.integers(1, 7), "twice": st.booleans()})
 
     def oracle(self, case, rec):
         ns, nc, T, ltv = case["ns"], case["nc"], case["T"], case["ltv"]
@@ -243,7 +293,9 @@ class MPCLinear(Sub):
         sysm = make_system(pr, ltv)
         Tn = torch.tensor
         rs = pr["rs"]
-        stepper = pp.utils.ReduceToBason(steps=case["steps"] + 1, verbose=False)
+        # iteration budget of the stepper: 1 (a single LQR pass before the final one) .. 7; older replay files carry "steps" = budget - 1
+        budget = case["budget"] if "budget" in case else case["steps"] + 1
+        stepper = pp.utils.ReduceToBason(steps=budget, verbose=False)
         with rec.sut("MPC"):
             mpc = pp.module.MPC(sysm, Tn(pr["Q"]), Tn(pr["p"]), T, stepper=stepper)
             ui = Tn(rs.randn(1, T, nc)) if case["uinit"] else None
@@ -251,9 +303,18 @@ class MPCLinear(Sub):
             if case["twice"]:
                 x, u, cost = mpc(1, Tn(pr["x0"]), u_init=None)
         check_solution(rec, "mpc", pr, T, ltv, pr["Q"], pr["p"], pr["x0"], x.detach().numpy(), u.detach().numpy(), cost.detach().numpy().reshape(-1), 1)
-        rec.label("LTV" if ltv else "LTI")
+        rec.label("LTV" if ltv else "LTI", "budget1" if budget == 1 else "budget>1", "T>8" if T > 8 else "T<=8", "cond%g" % case["condq"],
+                  "dims6" if max(ns, nc) == 6 else "dims<6")
         if T >= 3 or case["twice"] or case["uinit"]:
-            rec.nt(("mpc_lin", ltv, ns, nc, min(T, 4), case["twice"], case["uinit"], case["steps"]))
+            rec.nt(("mpc_lin", ltv, ns, nc, min(T, 4) if T <= 8 else 9, case["twice"], case["uinit"], budget))
+
+    def simplify(self, case):
+        for k in ("ns", "nc", "T"):
+            if case[k] > 1:
+                yield dict(case, **{k: case[k] - 1})
+        for k in ("tvq", "cross", "c1", "twice", "uinit", "ltv"):
+            if case[k]:
+                yield dict(case, **{k: False})
 
 
 class SmoothNLS(pp.module.NLS):
@@ -273,8 +334,11 @@ class MPCNonlinear(Sub):
     n = {"quick": 150, "thorough": 4000}
 
     def strategy(self, tier):
-        return st.fixed_dictionaries({"seed": st.integers(0, 10 ** 7), "ns": st.integers(1, 4), "nc": st.integers(1, 3), "T": st.integers(1, 6),
-                                      "steps": st.integers(2, 6), "a": st.sampled_from((0.0, 0.1, 0.5))})
+        Ts = st.integers(1, 20) if tier != "quick" else weighted((st.integers(1, 6), 7), (st.integers(7, 20), 1))
+        # a = 0 is a LINEAR system (kept as one case in eight: MPC must not break on the degenerate member of the family)
+        return st.fixed_dictionaries({"seed": st.integers(0, 10 ** 7), "ns": st.integers(1, 6), "nc": st.integers(1, 6), "T": Ts,
+                                      "steps": st.integers(1, 6), "a": st.sampled_from((0.0, 0.1, 0.1, 0.3, 0.3, 0.5, 0.5, 0.5)),
+                                      "tvq": st.booleans(), "condq": st.sampled_from((1e2, 1e2, 1e4, 1e6))})
 
     def oracle(self, case, rec):
         ns, nc, T = case["ns"], case["nc"], case["T"]
@@ -284,13 +348,24 @@ class MPCNonlinear(Sub):
         Tn = torch.tensor
         sysm = SmoothNLS(Tn(W1), Tn(W2), Tn(Bm), a)
         nsc = ns + nc
-        U, _ = np.linalg.qr(rs.randn(nsc, nsc))
-        Q1 = U @ np.diag(10.0 ** rs.uniform(-1, 1, size=nsc)) @ U.T
-        Q = np.tile((Q1 + Q1.T) / 2, (1, T, 1, 1)); p = rs.randn(1, T, nsc); x0 = rs.randn(1, ns)
+        hw = math.log10(case.get("condq", 1e2)) / 2          # eigenvalues of Q_t in 10^[-hw, hw]
+
+        def pdq():
+            U, _ = np.linalg.qr(rs.randn(nsc, nsc))
+            Q1 = U @ np.diag(10.0 ** rs.uniform(-hw, hw, size=nsc)) @ U.T
+            return (Q1 + Q1.T) / 2
+        if case.get("tvq", False):
+            Q0 = pdq()
+            Q = np.stack([Q0] + [pdq() for _ in range(T - 1)])[None]
+        else:
+            Q = np.tile(pdq(), (1, T, 1, 1))
+        p = rs.randn(1, T, nsc); x0 = rs.randn(1, ns)
         with rec.sut("MPC(nonlinear)"):
             mpc = pp.module.MPC(sysm, Tn(Q), Tn(p), T, stepper=pp.utils.ReduceToBason(steps=case["steps"], verbose=False))
             x, u, cost = mpc(1, Tn(x0), u_init=Tn(rs.randn(1, T, nc) * 0.1))
         x, u, cost = x.detach().numpy()[0], u.detach().numpy()[0], float(cost.detach().numpy().reshape(-1)[0])
+        rec.label("linear(a=0)" if a == 0 else "nonlinear", "budget1" if case["steps"] == 1 else "budget>1", "T>6" if T > 6 else "T<=6",
+                  "Q_time_varying" if case.get("tvq", False) else "Q_constant", "dims>4" if max(ns, nc) > 4 else "dims<=4")
         if not rec.check(bool(np.all(np.isfinite(x)) and np.all(np.isfinite(u))), "mpcnl:nonfinite", "MPC returned non-finite trajectory"):
             return
         f = lambda xx, uu: W1 @ xx + a * np.sin(W2 @ xx) + Bm @ uu
@@ -299,9 +374,21 @@ class MPCNonlinear(Sub):
         ed = max(float(np.abs(x[t + 1] - f(x[t], u[t])).max()) for t in range(T))
         rec.notes["mpcnl:dyn"] = max(rec.notes.get("mpcnl:dyn", 0), ed / (1e-9 * scale))
         rec.check(ed <= 1e-9 * scale, "mpcnl:dynamics", lambda: "returned trajectory violates the nonlinear dynamics by %.3g" % ed)
-        cref = sum(0.5 * np.concatenate([x[t], u[t]]) @ Q[0, t] @ np.concatenate([x[t], u[t]]) + p[0, t] @ np.concatenate([x[t], u[t]]) for t in range(T))
-        rec.check(abs(cost - cref) <= 1e-9 * max(1.0, abs(cref)), "mpcnl:cost", lambda: "reported cost %.17g, sum along the trajectory %.17g" % (cost, cref))
-        rec.nt(("mpc_nl", ns, nc, T, case["steps"], a))
+        # cost along the returned trajectory: same conditioning argument as in check_solution
+        tau = np.concatenate([x[:T], u], axis=1)
+        cref = float(sum(0.5 * tau[t] @ Q[0, t] @ tau[t] + p[0, t] @ tau[t] for t in range(T)))
+        cabs = float(sum(0.5 * np.abs(tau[t]) @ np.abs(Q[0, t]) @ np.abs(tau[t]) + np.abs(p[0, t]) @ np.abs(tau[t]) for t in range(T)))
+        tol_c = 16 * (2 * nsc + T + 4) * 2.220446049250313e-16 * cabs + 1e-300
+        rec.notes["mpcnl:cost"] = max(rec.notes.get("mpcnl:cost", 0), abs(cost - cref) / tol_c)
+        rec.check(abs(cost - cref) <= tol_c, "mpcnl:cost", lambda: "reported cost %.17g, sum along the trajectory %.17g (tol %.3g)" % (cost, cref, tol_c))
+        rec.nt(("mpc_nl", ns, nc, min(T, 7), case["steps"], a, case.get("tvq", False)))
+
+    def simplify(self, case):
+        for k in ("ns", "nc", "T", "steps"):
+            if case[k] > 1:
+                yield dict(case, **{k: case[k] - 1})
+        if case.get("tvq"):
+            yield dict(case, tvq=False)
 
 
 SUBS = [LQRHist(), MPCLinear(), MPCNonlinear()]
